@@ -374,6 +374,7 @@ func cmdCheck(args []string) {
 	violations := 0
 	var vioLines []string
 	replayDir := filepath.Join(verifRoot, "replays", *prop)
+	os.RemoveAll(replayDir) // replay files always describe the current run
 	os.MkdirAll(replayDir, 0o755)
 	if err != nil {
 		// the package no longer loads / contracts no longer resolve: every claimed clause is undecided
